@@ -13,3 +13,20 @@ pub use crate::solver::core::kktsolvers::direct::ldlsolvers;
 pub use crate::solver::core::kktsolvers::direct::*;
 pub use crate::solver::core::kktsolvers::*;
 pub use crate::solver::core::{ScalingStrategy, Solver, StepDirection};
+
+// H2 : thin public wrappers for crate-private linear algebra traits
+use crate::algebra::*;
+
+/// y = a*A*x + b*y  (or A' when `transpose`)
+pub fn csc_gemv<T: FloatT>(A: &CscMatrix<T>, transpose: bool, y: &mut [T], x: &[T], a: T, b: T) {
+    if transpose {
+        A.t().gemv(y, x, a, b);
+    } else {
+        A.gemv(y, x, a, b);
+    }
+}
+
+/// y = a*A*x + b*y, with A a symmetric matrix given as its upper triangle
+pub fn csc_symv<T: FloatT>(A: &CscMatrix<T>, y: &mut [T], x: &[T], a: T, b: T) {
+    A.sym().symv(y, x, a, b);
+}
